@@ -134,3 +134,15 @@ package parser
 // Error reports are events; the channel send itself is not modelled.
 //@ contract (*lexer).Error
 //@   emits errs = old(errs) + 1
+
+// ---- from the parsed statements to processes, definitions and types
+// What the (trusted) grammar actions build: bodies are present, and an `exec` statement holds a call.
+//@ macro entriesOK(es []unexpandedProcessOrFunction) bool = forall k int :: 0 <= k && k < len(es) ==>
+//@        (es[k].kind == FUNCTION_DEF && es[k].function.UsesExplicitProvider ==> es[k].function.Body != nil) &&
+//@        (es[k].kind == PROCESS_DEF ==> es[k].proc.Body != nil) &&
+//@        (es[k].kind == EXEC_DEF ==> is(es[k].proc.Body, process.CallForm))
+
+//@ contract expandProcesses
+//@   requires[C11] entriesOK(u.procsAndFuns)
+//@   ensures C12.expandEnv: result3 == nil ==> result2 != nil
+//@   safety C11
